@@ -354,8 +354,13 @@ func genCohortRich(t *rapid.T) D {
 	case 1:
 		return genZero(t)
 	case 2, 3, 4:
-		// few digits: up to 35 encodings
-		return DFin(genSign(t), genDigits(t, ir(t, 1, 6, "len")), genExp(t))
+		// few digits: up to 35 encodings; a third of them with leading digits 10..129, the values that have a
+		// 35-digit encoding at all
+		c := genDigits(t, ir(t, 1, 6, "len"))
+		if ir(t, 0, 2, "lead1") == 0 {
+			c = bi(int64(ir(t, 10, 129, "c1")))
+		}
+		return DFin(genSign(t), c, genExp(t))
 	case 5:
 		// moderate magnitudes where the elementary functions are in range
 		return DFin(genSign(t), genDigits(t, ir(t, 1, 12, "len")), ir(t, -30, 8, "e"))
@@ -421,7 +426,14 @@ func TestC19_Cohort(t *testing.T) {
 			a.Prec = ir(t, 0, 200, "fprec")
 		default:
 			n := a.X.Num()
-			if n.Class == ref.Finite && ir(t, 0, 3, "dpNear") != 0 {
+			if rapid.Bool().Draw(t, "dpOfX2") {
+				n = a.X2.Num() // the cut measured from the other encoding's digits
+			}
+			if n.Class == ref.Finite && strings.Contains(op.name, "(dp") && rapid.Bool().Draw(t, "cutAtEnd") {
+				// the cut exactly at, or one off, either end of this encoding's digits (and of a 34/35-digit one)
+				nd := ref.DecLen(n.Coef)
+				a.I = -(n.Exp + []int{-1, 0, 1, nd - 1, nd, nd + 1, 34, 35, 36}[ir(t, 0, 8, "cut")])
+			} else if n.Class == ref.Finite && ir(t, 0, 3, "dpNear") != 0 {
 				a.I = -(n.Exp + ir(t, -3, 38, "j"))
 			} else {
 				a.I = ir(t, -6300, 6300, "dp")
